@@ -3,6 +3,7 @@ package props
 import (
 	"fmt"
 	"reflect"
+	"regexp"
 	"strings"
 
 	"github.com/osteele/liquid"
@@ -106,9 +107,15 @@ func engShape(n render.Node) string {
 	case *render.TagNode:
 		sb.WriteString("G(" + x.Name + ");")
 	case *render.RawNode:
-		sb.WriteString("R[")
+		// the raw text lives in an unexported field; if a refactoring renames it, the body is simply not compared here
+		// (the marker render below still checks that it is emitted verbatim)
 		rv := reflect.ValueOf(x).Elem().FieldByName("slices")
-		for i := 0; rv.IsValid() && i < rv.Len(); i++ {
+		if !rv.IsValid() || rv.Kind() != reflect.Slice {
+			sb.WriteString("R[*];")
+			break
+		}
+		sb.WriteString("R[")
+		for i := 0; i < rv.Len(); i++ {
 			sb.WriteString(rv.Index(i).String())
 		}
 		sb.WriteString("];")
@@ -265,6 +272,9 @@ func c06Check(c *core.Ctx, e *liquid.Engine, seq []ref.Sym, kind string) {
 	// adjacent text symbols form one text token
 	want := strings.ReplaceAll(refShape(tree, seq), "›;T‹", "›‹")
 	got := strings.ReplaceAll(engShape(tpl.GetRoot()), "›;T‹", "›‹")
+	if strings.Contains(got, "R[*];") {
+		want = regexp.MustCompile(`R\[[^\]]*\];`).ReplaceAllString(want, "R[*];")
+	}
 	if want != got {
 		c.Violate("tree-shape", "the parsed tree does not mirror the textual nesting", map[string]any{"source": src, "expected_tree": want, "observed_tree": got})
 		return
